@@ -23,6 +23,7 @@ type KnownFinding struct {
 	Harness  string `json:"harness"`
 	Label    string `json:"label"`
 	In       string `json:"in"`
+	Tag      string `json:"tag,omitempty"` // input class (verifrt.Tag) the finding is confined to
 	Commit   string `json:"commit,omitempty"`
 	Witness  string `json:"witness,omitempty"`
 	What     string `json:"what"`
@@ -30,6 +31,19 @@ type KnownFinding struct {
 
 type KnownFile struct {
 	Findings []KnownFinding `json:"findings"`
+}
+
+// hasTag: a known finding confined to an input class matches only violations carrying that tag.
+func hasTag(tags, want string) bool {
+	if want == "" {
+		return true
+	}
+	for _, t := range strings.Split(tags, ",") {
+		if t == want {
+			return true
+		}
+	}
+	return false
 }
 
 func loadKnown() KnownFile {
@@ -171,13 +185,13 @@ func cmdCheck(args []string) int {
 	}
 
 	// ---- native confirmation of violations and validation of witnesses ----
-	type vkey struct{ h, l, in string }
+	type vkey struct{ h, l, in, tags string }
 	distinct := map[vkey]*Violation{}
 	var order []vkey
 	for _, r := range results {
 		for i := range r.Violations {
 			v := &r.Violations[i]
-			k := vkey{v.Harness, v.Label, v.In}
+			k := vkey{v.Harness, v.Label, v.In, v.Tags}
 			if _, ok := distinct[k]; !ok {
 				distinct[k] = v
 				order = append(order, k)
@@ -280,12 +294,15 @@ func cmdCheck(args []string) int {
 		}
 		matched := false
 		for _, kf := range known.Findings {
-			if kf.Status == "known" && kf.Property == prop && kf.Harness == v.Harness && kf.Label == v.Label && kf.In == v.In {
+			if kf.Status == "known" && kf.Property == prop && kf.Harness == v.Harness && kf.Label == v.Label && kf.In == v.In && hasTag(v.Tags, kf.Tag) {
 				matched = true
-				key := kf.Harness + kf.Label + kf.In
+				key := kf.Harness + kf.Label + kf.In + kf.Tag
+				if os.Getenv("VERIF_SHOW_KNOWN") != "" {
+					fmt.Printf("   known-finding instance: %s %s tags=%s input: %s\n", v.Harness, v.Label, v.Tags, describeEvents(v.Events))
+				}
 				if !knownPrinted[key] {
 					knownPrinted[key] = true
-					fmt.Printf("KNOWN-FINDING: property=%s %s [%s %s in %s]\n", prop, kf.What, kf.Harness, kf.Label, kf.In)
+					fmt.Printf("KNOWN-FINDING: property=%s %s [%s %s in %s, input class %q]\n", prop, kf.What, kf.Harness, kf.Label, kf.In, kf.Tag)
 				}
 			}
 		}
@@ -298,16 +315,16 @@ func cmdCheck(args []string) int {
 				return '_'
 			}
 			return r
-		}, v.Harness+"-"+v.Label+"-"+v.In)
+		}, v.Harness+"-"+v.Label+"-"+v.In+"-"+v.Tags)
 		rp := filepath.Join(replayDir, safe+".json")
 		b, _ := json.MarshalIndent(map[string]interface{}{
-			"property": prop, "harness": v.Harness, "label": v.Label, "in": v.In, "where": v.Where, "kind": v.Kind,
+			"property": prop, "harness": v.Harness, "label": v.Label, "in": v.In, "tags": v.Tags, "where": v.Where, "kind": v.Kind,
 			"detail": v.Detail, "trace": v.Trace, "package_dir": byHarnessDir(results, resDir, v.Harness), "tier": tierN,
 			"events": v.Events, "native_outcome": nr.Outcome, "native_detail": nr.Detail,
 		}, "", " ")
 		os.WriteFile(rp, b, 0o644)
 		fmt.Printf("VIOLATION property=%s replay=%s\n", prop, rp)
-		fmt.Printf("  harness=%s label=%s in=%s (%s) %s\n  input: %s\n", v.Harness, v.Label, v.In, v.Where, v.Detail, describeEvents(v.Events))
+		fmt.Printf("  harness=%s label=%s in=%s tags=%s (%s) %s\n  input: %s\n", v.Harness, v.Label, v.In, v.Tags, v.Where, v.Detail, describeEvents(v.Events))
 		exit = 1
 	}
 
